@@ -313,9 +313,11 @@ def units(root):
     shared_c12 = [u for u in c12.units(root) if any(k in u.name for k in ("set_bins", "rebin", "fill("))]
     shared_c16 = [u for u in c16.units(root) if u.name in ("ConfidenceLevel setters", "ConfidenceLevel.__init__")]
     shared_c02 = [u for u in c02.units(root) if u.name in ("SimpleGaussianError setters", "IndexedContainer mutators")]
+    from . import c03
+    shared_c03 = [u for u in c03.units(root) if u.name in ("data replacement", "parameter constraints")]
     from . import c14
     shared_c14 = [u for u in c14.units(root) if u.name in ("GaussianMatrixParameterConstraint.__init__", "MatrixGaussianError.__init__")]
     return [Unit("SimpleGaussianError.__init__ guards", u_error_ctor_guards), Unit("MatrixGaussianError correlation-matrix guards", u_matrix_error_guards),
             Unit("DataContainerBase._add_error_object", u_add_error_object), Unit("CostFunction_NegLogLikelihood.is_data_compatible", u_poisson_compat),
             Unit("XYContainer._find_axis_raise", u_find_axis), Unit("NexusFitter.set_fit_parameter_values", u_set_fit_parameter_values), Unit("FitBase constraint / limit names", u_fit_names),
-            Unit("Nexus.add_dependency rollback", u_add_dependency, bounded="dependency lists of length <= 3 over 3 nodes, with / without dependencies that existed before; node objects and the cycle checker are recording stand-ins")] + prefixed("HistContainer", shared_c12) + prefixed("", shared_c16) + prefixed("", shared_c02) + prefixed("", shared_c14)
+            Unit("Nexus.add_dependency rollback", u_add_dependency, bounded="dependency lists of length <= 3 over 3 nodes, with / without dependencies that existed before; node objects and the cycle checker are recording stand-ins")] + prefixed("HistContainer", shared_c12) + prefixed("", shared_c16) + prefixed("", shared_c02) + prefixed("", shared_c14) + prefixed("fit:", shared_c03)
